@@ -40,6 +40,7 @@ var mapscanRoots = []string{"x", "app", "precompiles", "types", "utils"}
 var mapscanExcludedDirs = []string{"/client/", "/cli/", "/rpc/", "/server/", "/indexer/", "/testutil/", "/simulation/", "/tests/"}
 
 type mapSite struct {
+	Kind    string `json:"kind"` // map-range | go-stmt | wall-clock
 	File    string `json:"file"`
 	Func    string `json:"func"`
 	Expr    string `json:"expr"`
@@ -51,9 +52,10 @@ type mapSite struct {
 	Body    string `json:"-"`
 }
 
-func (s mapSite) key() string { return fmt.Sprintf("%s|%s|%s|%d", s.File, s.Func, s.Expr, s.Occ) }
+func (s mapSite) key() string { return fmt.Sprintf("%s|%s|%s|%s|%d", s.Kind, s.File, s.Func, s.Expr, s.Occ) }
 
 type siteRule struct {
+	Kind     string `json:"kind"`
 	File     string `json:"file"`
 	Func     string `json:"func"`
 	Expr     string `json:"expr"`
@@ -205,7 +207,7 @@ func scanMapSites() ([]mapSite, error) {
 	})
 	seen := map[string]int{}
 	for i := range sites {
-		k := sites[i].File + "|" + sites[i].Func + "|" + sites[i].Expr
+		k := sites[i].Kind + "|" + sites[i].File + "|" + sites[i].Func + "|" + sites[i].Expr
 		sites[i].Occ = seen[k]
 		seen[k]++
 	}
@@ -246,7 +248,52 @@ func sitesOfFile(fset *token.FileSet, f *ast.File, info *types.Info, relFile str
 			continue
 		}
 		fd, _ := body.(*ast.FuncDecl)
+		var stack []ast.Node
 		ast.Inspect(body, func(n ast.Node) bool {
+			if n == nil {
+				stack = stack[:len(stack)-1]
+				return true
+			}
+			stack = append(stack, n)
+			if gs, ok := n.(*ast.GoStmt); ok {
+				s := mapSite{Kind: "go-stmt", File: relFile, Func: fname, Expr: types.ExprString(gs.Call.Fun), MapType: "-", Line: fset.Position(gs.Pos()).Line}
+				if _, isLit := gs.Call.Fun.(*ast.FuncLit); isLit {
+					s.Expr = "func literal"
+				}
+				// a literal carries its own body; for `go f()` what makes the goroutine harmless (locks, what it
+				// writes) lives in the enclosing function: review all of it
+				s.Body = nodeText(fset, gs)
+				if _, isLit := gs.Call.Fun.(*ast.FuncLit); !isLit {
+					s.Body = nodeText(fset, body)
+				}
+				s.Auto, s.AutoWhy = autoClassifyOther(relFile, nil)
+				out = append(out, s)
+				return true
+			}
+			if call, ok := n.(*ast.CallExpr); ok {
+				name := types.ExprString(call.Fun)
+				if sel, ok := call.Fun.(*ast.SelectorExpr); ok && (sel.Sel.Name == "AddEVMExtensions" || sel.Sel.Name == "RegisterERC20Extensions") {
+					// the in-memory precompile registry must stay a constant of construction (no caller outside tests):
+					// a caller makes committed behaviour depend on process history (see also C20)
+					out = append(out, mapSite{Kind: "dynamic-registration", File: relFile, Func: fname, Expr: name, MapType: "-",
+						Line: fset.Position(call.Pos()).Line, Body: nodeText(fset, call)})
+				}
+				if name == "time.Now" || name == "time.Since" || name == "time.Until" {
+					s := mapSite{Kind: "wall-clock", File: relFile, Func: fname, Expr: name + "()", MapType: "-", Line: fset.Position(call.Pos()).Line}
+					// the statement the call sits in is what is reviewed
+					var encl ast.Node = call
+					for i := len(stack) - 1; i >= 0; i-- {
+						if _, ok := stack[i].(ast.Stmt); ok {
+							encl = stack[i]
+							break
+						}
+					}
+					s.Body = nodeText(fset, encl)
+					s.Auto, s.AutoWhy = autoClassifyOther(relFile, stack)
+					out = append(out, s)
+				}
+				return true
+			}
 			rs, ok := n.(*ast.RangeStmt)
 			if !ok {
 				return true
@@ -254,7 +301,7 @@ func sitesOfFile(fset *token.FileSet, f *ast.File, info *types.Info, relFile str
 			tv, ok := info.Types[rs.X]
 			if !ok || tv.Type == nil {
 				// untyped (type error upstream): report it as a site that cannot be classified
-				out = append(out, mapSite{File: relFile, Func: fname, Expr: types.ExprString(rs.X), MapType: "?untyped", Line: fset.Position(rs.Pos()).Line})
+				out = append(out, mapSite{Kind: "map-range", File: relFile, Func: fname, Expr: types.ExprString(rs.X), MapType: "?untyped", Line: fset.Position(rs.Pos()).Line})
 				return true
 			}
 			u := tv.Type.Underlying()
@@ -264,7 +311,7 @@ func sitesOfFile(fset *token.FileSet, f *ast.File, info *types.Info, relFile str
 			if _, ok := u.(*types.Map); !ok {
 				return true
 			}
-			s := mapSite{File: relFile, Func: fname, Expr: types.ExprString(rs.X), MapType: tv.Type.String(), Line: fset.Position(rs.Pos()).Line}
+			s := mapSite{Kind: "map-range", File: relFile, Func: fname, Expr: types.ExprString(rs.X), MapType: tv.Type.String(), Line: fset.Position(rs.Pos()).Line}
 			s.Body = nodeText(fset, rs)
 			s.Auto, s.AutoWhy = autoClassify(rs, fd, info, relFile)
 			out = append(out, s)
@@ -381,8 +428,21 @@ func autoClassify(rs *ast.RangeStmt, fd *ast.FuncDecl, info *types.Info, relFile
 	// (1) keys (or key-derived values) collected into slices, each slice sorted afterwards in the same function
 	collected := map[string]bool{}
 	collectOnly := stmtsOnly(rs.Body.List, info, func(st ast.Stmt) bool {
+		if inc, ok := st.(*ast.IncDecStmt); ok { // index counter of `slice[i] = k; i++`
+			_, isIdent := inc.X.(*ast.Ident)
+			return isIdent
+		}
 		as, ok := st.(*ast.AssignStmt)
 		if !ok || len(as.Lhs) != 1 || len(as.Rhs) != 1 {
+			return false
+		}
+		if ix, ok := as.Lhs[0].(*ast.IndexExpr); ok && as.Tok == token.ASSIGN { // slice[i] = key
+			if tv, ok := info.Types[ix.X]; ok {
+				if _, isSlice := tv.Type.Underlying().(*types.Slice); isSlice && isPureExpr(as.Rhs[0], info) {
+					collected[types.ExprString(ix.X)] = true
+					return true
+				}
+			}
 			return false
 		}
 		call, ok := as.Rhs[0].(*ast.CallExpr)
@@ -470,6 +530,24 @@ func autoClassify(rs *ast.RangeStmt, fd *ast.FuncDecl, info *types.Info, relFile
 	return "", ""
 }
 
+// autoClassifyOther handles goroutine and wall-clock sites: query handlers, and clock reads that only feed telemetry.
+func autoClassifyOther(relFile string, stack []ast.Node) (string, string) {
+	base := filepath.Base(relFile)
+	if strings.HasPrefix(base, "grpc_query") || base == "querier.go" || base == "query.go" {
+		return "query-only", "file " + base + " holds gRPC query handlers only; results never enter committed state"
+	}
+	for i := len(stack) - 1; i >= 0; i-- {
+		switch x := stack[i].(type) {
+		case *ast.CallExpr:
+			name := types.ExprString(x.Fun)
+			if strings.HasPrefix(name, "telemetry.") {
+				return "telemetry-only", "the clock value is an argument of " + name + " (metrics sink, nothing is returned to the state machine)"
+			}
+		}
+	}
+	return "", ""
+}
+
 // ---------------------------------------------------------------- classification file
 
 func loadSiteRules() (map[string]siteRule, error) {
@@ -484,7 +562,10 @@ func loadSiteRules() (map[string]siteRule, error) {
 	}
 	m := map[string]siteRule{}
 	for _, r := range sf.Sites {
-		m[fmt.Sprintf("%s|%s|%s|%d", r.File, r.Func, r.Expr, r.Occ)] = r
+		if r.Kind == "" {
+			r.Kind = "map-range"
+		}
+		m[fmt.Sprintf("%s|%s|%s|%s|%d", r.Kind, r.File, r.Func, r.Expr, r.Occ)] = r
 	}
 	return m, nil
 }
@@ -556,13 +637,16 @@ func autoLemma(class string) string {
 	case "set-or-lookup-only":
 		return "C01_registry_order_independent"
 	case "query-only":
-		return "(not part of the block function: C01_block_is_function quantifies over DeliverTx-mode steps only)"
+		return "(not part of the block function: C01_block_is_function_partial quantifies over DeliverTx-mode steps only)"
+	case "telemetry-only":
+		return "(the value never flows back: no argument of the step functions of C01_block_is_function_partial)"
 	}
 	return ""
 }
 
 var siteClassCode = map[string]int{"sorted-before-use": 1, "set-or-lookup-only": 2, "order-free-result": 3, "query-only": 4,
-	"construction-registry": 5, "not-state-machine": 6, "index-into-ordered-slice": 7}
+	"construction-registry": 5, "not-state-machine": 6, "index-into-ordered-slice": 7, "telemetry-only": 8, "synchronised-then-sorted": 9,
+	"node-local-observer": 10}
 
 // undischargedPackages lists the /repo directories holding undischarged sites
 // (used by the replicas driver to bias its histories).
@@ -592,7 +676,7 @@ func mapscanDriver(cfg Config, out *Out) error {
 			return err
 		}
 		for _, s := range sites {
-			b, _ := json.Marshal(map[string]interface{}{"file": s.File, "func": s.Func, "expr": s.Expr, "occ": s.Occ, "map_type": s.MapType,
+			b, _ := json.Marshal(map[string]interface{}{"kind": s.Kind, "file": s.File, "func": s.Func, "expr": s.Expr, "occ": s.Occ, "map_type": s.MapType,
 				"line": s.Line, "auto": s.Auto, "body_hash": bodyHash(s.Body), "body": s.Body})
 			fmt.Fprintln(os.Stderr, string(b))
 		}
@@ -607,8 +691,8 @@ func mapscanDriver(cfg Config, out *Out) error {
 		code := siteClassCode[v.Class]
 		c := Case{
 			ID:   "site:" + s.key(),
-			Kind: "map-range-site",
-			Input: map[string]interface{}{"file": s.File, "func": s.Func, "expr": s.Expr, "occ": s.Occ, "map_type": s.MapType, "line": s.Line},
+			Kind: s.Kind + "-site",
+			Input: map[string]interface{}{"kind": s.Kind, "file": s.File, "func": s.Func, "expr": s.Expr, "occ": s.Occ, "map_type": s.MapType, "line": s.Line},
 			Obs:  map[string]interface{}{"status": v.Status, "class": v.Class, "lemma": v.Lemma, "why": v.Why},
 			// the Coq side re-checks that the class code names a lemma of Props/C01.v (0 = undischarged -> mismatch)
 			Coq:        fmt.Sprintf("%d%%N", code),
